@@ -120,6 +120,7 @@ func replayC05(c *core.Ctx, v *core.Violation) (bool, string) {
 func runC05(c *core.Ctx) {
 	pool := cfg.NewPool()
 	specs := cfg.ParserSide()
+	rich := richSafe()
 	corpus := loadCorpus(c)
 	st := &oracle.WalkStats{Kinds: map[ast.NodeKind]int{}}
 	r := c.Rng
@@ -139,6 +140,7 @@ func runC05(c *core.Ctx) {
 			continue
 		}
 		src := []byte(wl.ShortAt(alpha, maxLen, i))
+		c05Check(c, pool, rich[i%len(rich)], src, st)
 		if c.Quick() {
 			for e := 0; e < cfg.NExt; e++ {
 				c05Check(c, pool, specs[e*4+(i+e)%4], src, st)
@@ -187,6 +189,9 @@ func runC05(c *core.Ctx) {
 			sp := specs[r.Intn(len(specs))]
 			if k == 0 {
 				sp = specs[cfg.ExtAll*4+r.Intn(4)]
+			}
+			if k == 1 && i%2 == 0 {
+				sp = rich[r.Intn(len(rich))]
 			}
 			c05Check(c, pool, sp, src, st)
 		}
